@@ -10,7 +10,7 @@ from ..astutil import (
 from ..cfg import no_exc
 from ..report import Registry, sub
 from ._helpers_rob_f2 import (
-    atoms as _atoms, dominating_guards, env_of, guard_atom_exprs_at, guard_atoms_at, inline_local_calls, prune_edges, resolve_name,
+    atoms as _atoms, by_name, dominating_guards, env_of, guard_atom_exprs_at, guard_atoms_at, inline_local_calls, prune_edges, resolve_name,
 )
 
 R = Registry(
@@ -84,7 +84,7 @@ class _Handler:
                 return nf[n]
             return mod_funcs.get(n)
 
-        self.fn, self.inlined = inline_local_calls(self.orig, resolve)
+        self.fn, self.inlined = inline_local_calls(self.orig, by_name(resolve))
         self.name = name
         self.params = [a.arg for a in self.orig.args.args]
         self.pm = parent_map(self.fn)
@@ -350,14 +350,60 @@ def _defs(env, name):
     return [unparse(d).replace(" ", "") for d in env.get(name, [])]
 
 
+def _with_self_helpers(ctx, f, interesting, depth=2):
+    """The method's AST with `self.<helper>(..)` calls inlined for helpers (resolved through the static MRO; not the
+    public mutators of the impl protocol) that are `interesting` themselves or call an interesting helper: an
+    extracted private method is read as part of its caller.  The method's own node is returned when nothing applies."""
+    cache = ctx.__dict__.setdefault("_c37_inlined", {})
+    if f.key in cache:
+        return cache[f.key]
+    ix = ctx.index
+
+    def helper(call, level=0):
+        fn_ = call.func
+        if not (isinstance(fn_, ast.Attribute) and isinstance(fn_.value, ast.Name) and fn_.value.id == "self") or fn_.attr in IMPL_MUTATORS:
+            return None
+        h = ix.resolve_method(f.cls, fn_.attr) if f.cls is not None else None
+        if h is None or h.type_only or h.node is f.node or not isinstance(h.node, ast.FunctionDef):
+            return None
+        if any(d.split(".")[-1] in ("staticmethod", "classmethod", "property") for d in h.decorators):
+            return None
+        if interesting(call, h.node) or (level < 1 and any(helper(c, level + 1) is not None for c in calls_in(h.node))):
+            return h
+        return None
+
+    def resolve(call):
+        h = helper(call)
+        if h is None:
+            return None
+        ctx.functions_analysed.add(h.key)
+        return (h.node, ast.Name(id="self", ctx=ast.Load()))
+
+    new, n = inline_local_calls(f.node, resolve, depth=depth)
+    cache[f.key] = new if n else f.node
+    return cache[f.key]
+
+
 @R.rule("C37-R4", floor=3, template="T-PATH",
         desc="_CollectionAttributeImpl.set installs the new collection only together with "
              "collections.bulk_replace(new values, old adapter, new adapter, initiator=bulk-replace token); "
              "bulk_replace fires remove events for old - new and appends new - old with the initiator")
 def r4(ctx):
     f = ctx.func(f"{ATTR}::_CollectionAttributeImpl.set")
-    g = ctx.cfg(f)
-    env = _env(f.node)
+    # private helpers of the impl that hold the store / the bulk_replace call are read as part of set()
+    fresh = {e.id for n in walk_local(f.node) if isinstance(n, ast.Assign) and isinstance(n.targets[0], ast.Tuple)
+             and "_initialize_collection" in unparse(n.value) for e in n.targets[0].elts if isinstance(e, ast.Name)}
+
+    def part_of_set(call, h):
+        # the helper runs bulk_replace, or it receives the freshly initialised collection and stores into dict_[self.key]
+        if any((call_name(c) or "").endswith("bulk_replace") and not (call_name(c) or "").startswith("self.dispatch") for c in calls_in(h)):
+            return True
+        passed = {a.id for a in list(call.args) + [k.value for k in call.keywords] if isinstance(a, ast.Name)}
+        return bool(passed & fresh) and bool(_storage_mutations(h))
+
+    fnode = _with_self_helpers(ctx, f, part_of_set)
+    g = ctx.cfg(fnode)
+    env = _env(fnode)
     br = g.find_calls("collections.bulk_replace", "bulk_replace")
     br = [i for i in br if any((call_name(c) or "").endswith("bulk_replace") and not (call_name(c) or "").startswith("self.dispatch")
                                for c in calls_in(g.nodes[i].stmt))]
@@ -386,7 +432,7 @@ def r4(ctx):
                 if not any(d.startswith("self.get(") for d in _defs(env, oldname)):
                     probs.append("old collection is not obtained through self.get(state, dict_, ...)")
             newd = [unparse(d) for d in env.get(unparse(a[2]), [])]
-            tup = [n for n in walk_local(f.node) if isinstance(n, ast.Assign) and isinstance(n.targets[0], ast.Tuple)
+            tup = [n for n in walk_local(fnode) if isinstance(n, ast.Assign) and isinstance(n.targets[0], ast.Tuple)
                    and "_initialize_collection" in unparse(n.value)]
             okn = bool(tup) and isinstance(tup[0].targets[0].elts[0], ast.Name) and tup[0].targets[0].elts[0].id == unparse(a[2])
             if not okn:
@@ -530,6 +576,18 @@ def r5(ctx):
             if m.type_only or m.is_overload:
                 continue
             muts = _storage_mutations(m.node)
+            # a private helper of the impl that only performs the storage change (no event of its own) is a storage
+            # change of its caller, at the call site
+            via_helper = []
+            for call in calls_in(m.node):
+                fn_ = call.func
+                if isinstance(fn_, ast.Attribute) and isinstance(fn_.value, ast.Name) and fn_.value.id == "self" and fn_.attr not in IMPL_MUTATORS:
+                    h = ix.resolve_method(c, fn_.attr)
+                    if h is not None and h.node is not m.node and not h.type_only and isinstance(h.node, ast.FunctionDef):
+                        hm = _storage_mutations(h.node)
+                        if hm and not _direct_events(h.node, wanted):
+                            via_helper.extend((call, k) for _, k in hm)
+            muts = muts + via_helper
             if not muts:
                 continue
             # event deliveries: direct ones and calls of self.<helper>() whose body delivers a before-mutation event
@@ -605,7 +663,7 @@ def _wrapper_phase(ctx, inner):
         before = g.witness([d], fns, edge_ok=no_exc) is not None
         ph = "mixed" if (after and before) else ("after" if after else "before")
         kind = "single"
-        for lp in [a for a in ancestors(pm, g.nodes[d].stmt) if isinstance(a, (ast.For, ast.While))]:
+        for lp in [a for a in ancestors(pm, g.nodes[d].stmt) if isinstance(a, (ast.For, ast.While)) and not getattr(a, "_inline_scaffold", False)]:
             inside = {id(x) for x in ast.walk(lp)}
             if any(id(g.nodes[i].stmt) not in inside and g.witness([d], [i], edge_ok=no_exc) is not None for i in fns):
                 kind = "bulk"
@@ -667,12 +725,24 @@ def r6(ctx):
         ctx.ok(hkey, f"`{unparse(c.func)}({unparse(c.args[0])}, ..)` is true from {k} occurrence(s): 'another one remains' holds iff the event is delivered {presupposed} the removal of exactly one item")
     ld = ctx.func(f"{COLL}::_list_decorators")
     n = 0
-    for name, deco in sorted(nested_functions(ld.node).items()):
+    decos = nested_functions(ld.node)
+    # helpers a wrapper may delegate its event delivery to: closures of _list_decorators that are not decorators
+    # themselves, and functions of the module that deliver the remove event (the event functions stay the anchors)
+    local_helpers = {k: v for k, v in decos.items() if not any(isinstance(x, ast.FunctionDef) for x in v.body)}
+    for k, fi in ld.module.functions.items():
+        nd = getattr(fi, "node", None)
+        if isinstance(nd, ast.FunctionDef) and not k.endswith(("__del", "__set", "__before_pop")) and any(
+                isinstance(c.func, ast.Name) and c.func.id.endswith("__del") for c in calls_in(nd)):
+            local_helpers.setdefault(k, nd)
+    keep = ctx.__dict__.setdefault("_c37_wrappers", [])
+    for name, deco in sorted(decos.items()):
         inner = [x for x in deco.body if isinstance(x, ast.FunctionDef)]
         if not inner:
             continue
         loc = f"{ld.module.path}:{deco.lineno}"
-        for kind, ph in sorted(_wrapper_phase(ctx, inner[0]).items()):
+        wrapper, _n = inline_local_calls(inner[0], by_name(lambda nm: local_helpers.get(nm)))
+        keep.append(wrapper)
+        for kind, ph in sorted(_wrapper_phase(ctx, wrapper).items()):
             n += 1
             key = f"{ld.key}.{name}:remove-event-phase" + ("[bulk]" if kind == "bulk" else "")
             if presupposed is None:
@@ -1003,3 +1073,60 @@ R.mutant("listen-early-return-skips-remove", ATTR,
          sub("    else:\n        event.listen(\n            attribute,\n            \"set\",\n            emit_backref_from_scalar_set_event,\n            retval=True,\n            raw=True,\n            include_key=True,\n        )\n",
              "        return\n    event.listen(\n        attribute,\n        \"set\",\n        emit_backref_from_scalar_set_event,\n        retval=True,\n        raw=True,\n        include_key=True,\n    )\n"),
          "C37-R3")
+# extracted private methods of the impls (store / bulk_replace moved out of set())
+_SET_TAIL = ("        old_collection = old._sa_adapter\n\n        dict_[self.key] = user_data\n\n        collections.bulk_replace(\n"
+             "            new_values, old_collection, new_collection, initiator=evt\n        )\n\n"
+             "        self._dispose_previous_collection(state, old, old_collection, True)\n")
+_SET_TAIL_HELPER = ("        self._swap_collections(\n            state, dict_, old, user_data, new_values, new_collection, evt\n        )\n\n"
+                    "    def _swap_collections(\n        self, state, dict_, previous, user_data, members, adapter, token\n    ):\n"
+                    "        previous_adapter = previous._sa_adapter\n        dict_[self.key] = user_data\n"
+                    "        collections.bulk_replace(\n            members, previous_adapter, adapter, initiator=token\n        )\n"
+                    "        self._dispose_previous_collection(\n            state, previous, previous_adapter, True\n        )\n")
+R.mutant("benign-collection-set-tail-extracted-to-method", ATTR, sub(_SET_TAIL, _SET_TAIL_HELPER), None)
+R.mutant("collection-set-helper-same-adapter-twice", ATTR,
+         sub(_SET_TAIL, _SET_TAIL_HELPER.replace("members, previous_adapter, adapter, initiator=token", "members, adapter, adapter, initiator=token")), "C37-R4")
+R.mutant("collection-set-helper-called-before-event", ATTR,
+         _chain(sub(_SET_TAIL, _SET_TAIL_HELPER),
+                sub("        self.dispatch.bulk_replace(state, new_values, evt, keys=new_keys)\n\n", ""),
+                sub("        self._swap_collections(\n            state, dict_, old, user_data, new_values, new_collection, evt\n        )\n",
+                    "        self._swap_collections(\n            state, dict_, old, user_data, new_values, new_collection, evt\n        )\n"
+                    "        self.dispatch.bulk_replace(state, new_values, evt, keys=new_keys)\n")),
+         "C37-R5")
+_STORE_HELPER = ("\n    def _store_value(self, dict_: _InstanceDict, value: Any) -> None:\n        dict_[self.key] = value\n\n"
+                 "    def fire_remove_event(\n        self,\n        state: InstanceState[Any],\n        dict_: _InstanceDict,\n        value: Any,\n        initiator: Optional[AttributeEventToken],\n    ) -> None:\n"
+                 "        if self.trackparent and value not in (\n")
+R.mutant("benign-scalar-object-set-store-in-helper", ATTR,
+         _chain(sub("        value = self.fire_replace_event(state, dict_, value, old, initiator)\n        dict_[self.key] = value\n",
+                    "        value = self.fire_replace_event(state, dict_, value, old, initiator)\n        self._store_value(dict_, value)\n"),
+                sub("\n    def fire_remove_event(\n        self,\n        state: InstanceState[Any],\n        dict_: _InstanceDict,\n        value: Any,\n        initiator: Optional[AttributeEventToken],\n    ) -> None:\n"
+                    "        if self.trackparent and value not in (\n", _STORE_HELPER)),
+         None)
+R.mutant("scalar-object-set-store-helper-before-event", ATTR,
+         _chain(sub("        value = self.fire_replace_event(state, dict_, value, old, initiator)\n        dict_[self.key] = value\n",
+                    "        self._store_value(dict_, value)\n        value = self.fire_replace_event(state, dict_, value, old, initiator)\n        self._store_value(dict_, value)\n"),
+                sub("\n    def fire_remove_event(\n        self,\n        state: InstanceState[Any],\n        dict_: _InstanceDict,\n        value: Any,\n        initiator: Optional[AttributeEventToken],\n    ) -> None:\n"
+                    "        if self.trackparent and value not in (\n", _STORE_HELPER)),
+         "C37-R5")
+# list wrappers: remove events delivered through an extracted closure / inverted arms
+_DELITEM = ("            if not isinstance(index, slice):\n                item = self[index]\n                __del(self, item, None, index)\n                fn(self, index)\n"
+            "            else:\n                # slice deletion requires __getslice__ and a slice-groking\n                # __getitem__ for stepped deletion\n                # note: not breaking this into atomic dels\n"
+            "                for item in self[index]:\n                    __del(self, item, None, index)\n                fn(self, index)\n")
+R.mutant("benign-list-delitem-events-in-closure-arms-swapped", COLL,
+         _chain(sub(_DELITEM,
+                    "            if isinstance(index, slice):\n                _announce_removals(self, self[index], index)\n                fn(self, index)\n                return\n"
+                    "            item = self[index]\n            __del(self, item, None, index)\n            fn(self, index)\n"),
+                sub("    def __delitem__(fn):\n        def __delitem__(self, index):\n",
+                    "    def _announce_removals(collection, items, index):\n        for item in items:\n            __del(collection, item, None, index)\n\n"
+                    "    def __delitem__(fn):\n        def __delitem__(self, index):\n"),
+                sub("    l = locals().copy()\n    l.pop(\"_tidy\")\n    return l\n\n\ndef _dict_decorators()",
+                    "    l = locals().copy()\n    l.pop(\"_tidy\")\n    l.pop(\"_announce_removals\")\n    return l\n\n\ndef _dict_decorators()")),
+         None)
+R.mutant("list-delitem-scalar-event-helper-after-removal", COLL,
+         _chain(sub("                item = self[index]\n                __del(self, item, None, index)\n                fn(self, index)\n",
+                    "                item = self[index]\n                fn(self, index)\n                _announce_removal(self, item, index)\n"),
+                sub("    def __delitem__(fn):\n        def __delitem__(self, index):\n",
+                    "    def _announce_removal(collection, item, index):\n        __del(collection, item, None, index)\n\n"
+                    "    def __delitem__(fn):\n        def __delitem__(self, index):\n"),
+                sub("    l = locals().copy()\n    l.pop(\"_tidy\")\n    return l\n\n\ndef _dict_decorators()",
+                    "    l = locals().copy()\n    l.pop(\"_tidy\")\n    l.pop(\"_announce_removal\")\n    return l\n\n\ndef _dict_decorators()")),
+         "C37-R6")
